@@ -146,6 +146,14 @@ def check(h, reason):
     has_ki = "KeyboardInterrupt" in kinds
     if ended is None:
         if S.now - first["t"] > bound or reason in ("deadlock",):
+            # a distinct history: two terminations, the later one killing the event loop while the
+            # first one's cleanup was under way, and a coroutine payload that swallowed the last
+            # cancellation it was sent - nobody is left to cancel it again (see known findings)
+            done = {e["pid"] for e in ev if e["kind"] == "finished"}
+            swallowing = sorted({e["pid"] for e in ev if e["kind"] == "swallowed-cancel"} - done)
+            if swallowing and len(fails) + len(stops) >= 2:
+                v.append({"key": "C01/not-ended/two-terminations/swallowed-last-cancel", "msg": "terminations %r; payload(s) %r swallowed the last cancellation sent to them and were never cancelled again: the run call had not ended %.2f virtual seconds after the first failure (end of run: %s)" % ([(e["kind"], e.get("pid"), e.get("exc") or e.get("value")) for e in sorted(fails + stops, key=lambda e: e["seq"])], swallowing, S.now - first["t"], reason)})
+                return v, shape, True
             v.append({"key": "C01/not-ended/" + tag, "msg": "payload %s (%s, via %s) failed with %s at t=%.4f but the run call had not ended %.2f virtual seconds later (end of run: %s)" % (first["pid"], fspec["flavour"], fspec.get("via"), what, first["t"], S.now - first["t"], reason)})
         return v, shape, True
     if ended["t"] - first["t"] > bound:
